@@ -13,7 +13,7 @@
 (* inside a larger device), re-opens from bytes, walks, and parses the image           *)
 (* independently.  The predicates P_C06 / P_C07 judge each recorded event.             *)
 EXTENDS Integers, Sequences, FiniteSets, TLC
-TreeDims == [shape : {"empty", "flat1", "wide40", "wide300", "deep8", "deep9", "mixed", "boundary", "manyfrag", "dotdirs", "blocklists"},   \* boundary: directories of 40..75 equal-length names, so that some directory record ends exactly on a block boundary; manyfrag: 1100 files just under one block (squashfs: > 512 fragment blocks, > 1024 inodes, so fragment / export / id tables span several metadata blocks); dotdirs: sibling directories (and files) whose names agree before the first dot (v1.0 / v1.1 / v1.2, conf.d / conf.bak, pkg / pkg.old); blocklists: 40 files of 100 x 4 KiB, so that inodes with long block lists straddle metadata blocks of the inode table
+TreeDims == [shape : {"empty", "flat1", "wide40", "wide300", "deep8", "deep9", "mixed", "boundary", "manyfrag", "dotdirs", "blocklists", "hugedir"},   \* boundary: directories of 40..75 equal-length names, so that some directory record ends exactly on a block boundary; manyfrag: 1100 files just under one block (squashfs: > 512 fragment blocks, > 1024 inodes, so fragment / export / id tables span several metadata blocks); dotdirs: sibling directories (and files) whose names agree before the first dot (v1.0 / v1.1 / v1.2, conf.d / conf.bak, pkg / pkg.old); blocklists: 40 files of 100 x 4 KiB, so that inodes with long block lists straddle metadata blocks of the inode table
              sizes : {"small", "multi"},
              names : {"plain83", "long", "collide", "unicode", "dotfiles", "max"},      \* max: names of 248..255 bytes (files and directories)
              links : {"no", "yes"}]
